@@ -164,6 +164,8 @@ def _merge_case(draw):
         u = t
     else:
         u = [draw(_btype), []]
+    if kind in ('derived', 'independent') and draw(st.integers(0, 3)) == 0:
+        u = _with_empty(draw, u)       # an empty branch inside u contributes nothing: it must not wipe the branch or leaf t has at that path
     if wide and u[1] and kind not in ('self', 'empty'):
         u = [u[0], u[1] + [['w%03i' % i, ['leaf', 7]] for i in range(0, 60, 7)] + [['w500', ['leaf', 1]]]]
     return dict(t=t, u=u, kind=kind, ignore=draw(st.sampled_from([None, None, [None], [None, 0]])), via=draw(st.sampled_from(['tree_update', 'tree_update', 'add'])))
@@ -174,7 +176,7 @@ def m_merge(t, u, ignore):
     res = {k: m_copy(v) for k, v in t.items()}
     for k, uv in u.items():
         if isinstance(uv, dict):
-            if not uv:
+            if not _has_leaf(uv):          # u contributes through its leaves only: a branch holding nothing but empty branches adds nothing
                 continue
             if isinstance(res.get(k), dict):
                 res[k] = m_merge(res[k], uv, ignore)
@@ -185,6 +187,10 @@ def m_merge(t, u, ignore):
                 continue
             res[k] = uv
     return res
+
+
+def _has_leaf(m):
+    return any(_has_leaf(v) if isinstance(v, dict) else True for v in m.values())
 
 
 def m_copy(m):
@@ -240,6 +246,17 @@ def run_merge(spec):
         return isinstance(m, dict) and (not m or any(_has_empty(v) for v in m.values()))
     if len(mt) >= 60:
         cls.append('wide_branch_60+')
+
+    def _empty_over_content(t, u):
+        for k, uv in u.items():
+            if isinstance(uv, dict):
+                if not _has_leaf(uv) and k in t and t[k] not in ({}, None):
+                    return True
+                if uv and isinstance(t.get(k), dict) and _empty_over_content(t[k], uv):
+                    return True
+        return False
+    if _empty_over_content(mt, mu):
+        cls.append('empty_branch_of_u_over_content_of_t')
     if any(_has_empty(v) for v in mt.values()):
         cls.append('empty_branch_in_t')
         if any(isinstance(mt.get(k), dict) and not mt[k] and isinstance(mu.get(k), dict) and mu[k] for k in mu):
@@ -273,7 +290,7 @@ def _table_case(draw):
         parts.append(draw(st.sampled_from(['m', 'f'])))          # or .../%w/m : the wildcard is followed directly by the fixed leaf
     nrows = draw(st.integers(0, 5))
     keyv = st.sampled_from(['p', 'q', 'r'])
-    leafv = st.one_of(st.integers(0, 5), st.sampled_from(['L', 'M']), st.none())
+    leafv = st.one_of(st.integers(0, 5), st.sampled_from(['L', 'M']), st.none(), st.lists(st.integers(0, 3), max_size=3))     # list leaves too: [], [5], [1, 2]
     rows, seen = [], set()
     for _ in range(nrows):
         if const_leaf:
@@ -319,8 +336,9 @@ def run_table(spec):
         d = call('dictable(tree, %r)' % pattern, dictable, tree, pattern)
         check(ms(list(d)) == ms(rows), 'dictable(%s, %r) = %s, expected the rows %s', tree, pattern, list(d), rows)
     parts = pattern.split('/')
+    list_leaf = any(isinstance(r[-1], list) for r in spec['rows']) and not spec['const_leaf']
     shape = 'wild_leaf' if not spec['const_leaf'] else ('const_leaf_after_wildcard' if parts[-2].startswith('%') else 'const_leaf_after_key')
-    return dict(nt=len(rows) >= 2 and len(names) >= 2, cls=['wildcards=%i' % len(names), 'rows=%i' % min(len(rows), 3), shape])
+    return dict(nt=len(rows) >= 2 and len(names) >= 2, cls=['wildcards=%i' % len(names), 'rows=%i' % min(len(rows), 3), shape] + (['list_leaf'] if list_leaf else []))
 
 
 SUBS = [
@@ -332,9 +350,9 @@ SUBS = [
         rule='pairs (t, u) with u derived from t by keep/drop/replace leaf<->branch/recurse/add (or independent, t itself, empty), ignore lists, via tree_update or Dict + dict; '
              'oracle: recursive merge written from the statement on plain dicts; t and u compared by structure and node identity before/after. '
              'non-trivial = a nested branch present on both sides with differing content, or a leaf-vs-branch conflict',
-        floor=0.2, class_floors={'nested_branch_merged': 0.1, 'leaf_vs_branch': 0.05, 'via=add': 0.05}),
+        floor=0.2, class_floors={'nested_branch_merged': 0.1, 'leaf_vs_branch': 0.05, 'via=add': 0.05, 'empty_branch_of_u_over_content_of_t': 0.01}),
     Sub('table_tree', lambda tier: _table_case(), run_table, quick=2500, thorough=15000,
         rule='patterns with 1-4 wildcards interleaved with constants, rows with unique paths; oracle: independent tree construction, round trip both ways as multisets, dictable(tree, pattern) agrees. '
              'non-trivial = >= 2 rows and >= 2 wildcards',
-        floor=0.15, class_floors={'const_leaf_after_wildcard': 0.05, 'const_leaf_after_key': 0.05}),
+        floor=0.15, class_floors={'const_leaf_after_wildcard': 0.05, 'const_leaf_after_key': 0.05, 'list_leaf': 0.05}),
 ]
